@@ -251,7 +251,8 @@ def ident(rng, used, n=(1, 6)):
   for _ in range(200):
     k = rng.randint(*n)
     s = rng.choice("abcdfghjkmnpqstuvwz") + "".join(rng.choice("abcdefghijklmnopqrstuvwxyz0123456789_") for _ in range(k - 1))
-    if s.lower() not in RESERVED and s not in used and not s.lower().startswith("as") and not s.lower().startswith("pymath"):
+    # exprtk symbols are case-insensitive: identifiers must differ by more than case
+    if s.lower() not in RESERVED and s.lower() not in set(u.lower() for u in used) and not s.lower().startswith("as") and not s.lower().startswith("pymath"):
       return s
   raise RuntimeError("ident")
 
@@ -265,8 +266,10 @@ def gen_custom_forms(rng, n, reg0=False, tables=None):
     rname = rng.choice(["r", "r", "rij", "x1"])
     pnames = []
     for _ in range(rng.randint(0, 3)):
-      pn = ident(rng, set(pnames) | used | {rname}, (1, 4)).upper() if rng.random() < 0.5 else ident(rng, set(pnames) | used | {rname}, (1, 4))
-      if pn.lower() in RESERVED or pn in pnames:
+      pn = ident(rng, set(pnames) | used | {rname}, (1, 4))
+      if rng.random() < 0.5:
+        pn = pn.upper()
+      if pn.lower() in RESERVED or pn.lower() in set(x.lower() for x in pnames) or pn.lower() == rname.lower():
         continue
       pnames.append(pn)
     params = [rname] + pnames
